@@ -901,3 +901,65 @@ pub fn record_fuzz(seed: u64, n: usize, out: &str, rep: &mut Report) {
     }
     rec.finish(rep);
 }
+
+/// `cycles`: long histories.  The same program RUN dozens of times in one interpreter (with
+/// immediate DIMs, edits that re-enter a line, TRACE toggles and NEW in between), and silent
+/// programs that keep the host calling `continue_evaluating` ten thousand times without a single
+/// output record.  Whatever the implementation accumulates over such a history (a counter, a
+/// cache, a batch size) that the model does not have shows up as a difference at some later step.
+pub fn record_cycles(seed: u64, n: usize, out: &str, warn: bool, rep: &mut Report) {
+    let mut rec = Rec::new(out);
+    if warn {
+        // one run with warnings on that reads a never-assigned variable more than ten thousand times:
+        // every read warns, the first and the last alike
+        let lines = vec!["10 FOR I=1 TO 10300".to_string(), "20 A=K9".to_string(), "30 NEXT I".to_string(), "40 PRINT A;I".to_string()];
+        let mut s = rec.reset(900_000 + seed, false, true, json!({"driver": "cycles", "role": "warnings", "program": lines}));
+        let mut replies = || "1".to_string();
+        run_program(&mut rec, 900_000 + seed, &mut s, &lines, &mut replies, 60000);
+        rep.count("long_warning_runs");
+    }
+    let fixed: Vec<Vec<&str>> = vec![
+        vec!["10 DIM M(99,99):M(5,5)=7:PRINT M(5,5)"],
+        vec!["10 A(1,1,1)=1:B(2,2,2)=2:C(3,3,3)=3:PRINT A(1,1,1)+B(2,2,2)+C(3,3,3)"],
+        vec!["10 DIM S$(2000):S$(7)=\"abcdefghij\":PRINT S$(7);", "20 FOR I=1 TO 3:GOSUB 100:NEXT I:READ A,B$:PRINT A;B$", "30 DATA 4,\"x\"", "40 END", "100 K=K+1:RETURN"],
+        vec!["10 DEF F(X)=X*2:FOR I=1 TO 2:FOR J=1 TO 2:N=N+F(J):NEXT J:NEXT I:PRINT N"],
+    ];
+    for i in 0..n as u64 {
+        let mut rng = StdRng::seed_from_u64(seed ^ (i << 17) ^ 0xC1C);
+        if i % 3 == 2 {
+            // a silent long run: > 10000 turns, no output until the end
+            let limit = 2600 + (i % 5) * 700;
+            let lines = vec![format!("10 I=I+1:IF I<{} THEN 10", limit), "20 J=J+1".to_string(), format!("30 IF J<{} THEN GOTO 20", limit / 2), "40 PRINT I;J".to_string()];
+            let mut s = rec.reset(i, false, false, json!({"driver": "cycles", "role": "longrun", "program": lines}));
+            let mut replies = || "1".to_string();
+            run_program(&mut rec, i, &mut s, &lines, &mut replies, 40000);
+            rep.count("long_runs");
+            continue;
+        }
+        let lines: Vec<String> = if i % 3 == 0 { fixed[(i as usize / 3) % fixed.len()].iter().map(|x| x.to_string()).collect() } else { gen_program(seed, i, false, false, 0.0) };
+        let mut s = rec.reset(i, false, false, json!({"driver": "cycles", "role": "many_runs", "program": lines}));
+        for l in &lines {
+            rec.call(i, &mut s, call_submit(l));
+        }
+        let rounds = rng.gen_range(20..=30);
+        for r in 0..rounds {
+            if s.dead { break; }
+            rec.call(i, &mut s, call_submit("RUN"));
+            let mut replies = || "1".to_string();
+            drain(&mut rec, i, &mut s, &mut replies, 3000);
+            if s.dead || s.mode() != "idle" { break; }
+            match rng.gen_range(0..8) {
+                0 => { rec.call(i, &mut s, call_submit(&format!("DIM Z{}(99,99)", r))); }
+                1 => { let l = lines[rng.gen_range(0..lines.len())].clone(); rec.call(i, &mut s, call_submit(&l)); }
+                2 => { rec.call(i, &mut s, call_submit(if r % 2 == 0 { "TRACE" } else { "NOTRACE" })); }
+                3 => { rec.call(i, &mut s, call_submit("Q9(1,1,1)=1:PRINT Q9(1,1,1)")); }
+                _ => {}
+            }
+            // an immediate line of several statements keeps running: finish it before the next command
+            let mut replies = || "1".to_string();
+            drain(&mut rec, i, &mut s, &mut replies, 200);
+        }
+        rep.count("sessions");
+    }
+    rec.finish(rep);
+}
